@@ -4,13 +4,14 @@
 //
 //	line <withid> <unix-ns> <tag-hex> <id> <f0,...,f9>        lines.go   real appendPhout (verif hook)
 //	setters <unix-ns> <tag-hex> <id> <9 values>               lines.go   public setters + Sample.String()
-//	aggr <fmt> <Q> <G> <per> <mode> <delay-ms> <salt>         aggr.go    real aggregators under G reporters
+//	aggr <fmt> <Q> <G> <per> <mode> <delay-ms> <buf> <salt> [<stall-ms>]   aggr.go   real aggregators under G reporters
 //	engine <fmt> <instances> <ammo> <Q>                       engine.go  real engine, normal end of run
 //	signal <INT|TERM> <delay-ms> <instances> <buf> <salt>     signal.go  pandora-verif subprocess + signal
 package main
 
 import (
 	"strings"
+	"sync"
 
 	"verifharness/internal/vh"
 )
@@ -44,9 +45,24 @@ func gen(r *vh.Rand, tier string) []string {
 func main() {
 	vh.Main(gen, func(cases []string) []string {
 		out := make([]string, len(cases))
+		// aggr cases with a stalling destination mostly sleep: they run concurrently with the rest
+		var wg sync.WaitGroup
 		for i, c := range cases {
+			if f := strings.Split(c, " "); f[0] == "aggr" && len(f) > 9 {
+				wg.Add(1)
+				go func(i int, c string) {
+					defer wg.Done()
+					out[i] = runCase(c)
+				}(i, c)
+			}
+		}
+		for i, c := range cases {
+			if f := strings.Split(c, " "); f[0] == "aggr" && len(f) > 9 {
+				continue
+			}
 			out[i] = runCase(c)
 		}
+		wg.Wait()
 		return out
 	})
 }
